@@ -307,23 +307,33 @@ structure Filter where
   algFamily : Option Nat := none
   deriving Repr, DecidableEq
 
-def optMatch {γ : Type} [DecidableEq γ] (crit : Option γ) (val : γ) : List Bool :=
-  match crit with
-  | none => []
-  | some c => [decide (val = c)]
+/-- `Except`-filter over a list, structurally -/
+def filterE {β : Type} (p : β → Except ErrKind Bool) : List β → Except ErrKind (List β)
+  | [] => .ok []
+  | a :: as => match p a with
+    | .error e => .error e
+    | .ok b => match filterE p as with
+      | .error e => .error e
+      | .ok rest => .ok (if b then a :: rest else rest)
 
-/-- the `matches` list of `get_annotation_groups` for one item -/
-def matchList (g : GroupInfo) (f : Filter) : List Bool :=
-  optMatch f.category g.category ++ optMatch f.ptype g.ptype ++ optMatch f.label g.label ++
-  optMatch f.gtype g.gtype ++ optMatch f.algType g.algType ++
-  (match g.alg with
-   | some (name, version, family) =>
-     optMatch f.algName name ++ optMatch f.algVersion version ++ optMatch f.algFamily family
-   | none => if f.algName.isSome || f.algVersion.isSome || f.algFamily.isSome then [false] else [])
+/-- loop body of `get_annotation_groups` (translated `groupFilterDecision`): `has_<c>` = the criterion is
+given, `eq_<c>` = its comparison with the item; the three algorithm criteria compare with the item's
+algorithm identification when it has one -/
+def selected (g : GroupInfo) (f : Filter) : Except ErrKind Bool :=
+  groupFilterDecision
+    f.category.isSome (decide (f.category = some g.category))
+    f.ptype.isSome (decide (f.ptype = some g.ptype))
+    f.label.isSome (decide (f.label = some g.label))
+    f.gtype.isSome (decide (f.gtype = some g.gtype))
+    f.algType.isSome (decide (f.algType = some g.algType))
+    f.algName.isSome (match g.alg with | some (name, _, _) => decide (f.algName = some name) | none => false)
+    f.algFamily.isSome (match g.alg with | some (_, _, family) => decide (f.algFamily = some family) | none => false)
+    f.algVersion.isSome (match g.alg with | some (_, version, _) => decide (f.algVersion = some version) | none => false)
+    g.alg.isSome
 
-/-- `get_annotation_groups(**criteria)`: `np.all(matches) or len(matches) == 0` -/
-def getGroups (gs : List GroupInfo) (f : Filter) : List GroupInfo :=
-  gs.filter (fun g => (matchList g f).all id || (matchList g f).isEmpty)
+/-- `get_annotation_groups(**criteria)` -/
+def getGroups (gs : List GroupInfo) (f : Filter) : Except ErrKind (List GroupInfo) :=
+  filterE (fun g => selected g f) gs
 
 /-- the constructor of the SOP class accepts groups numbered 1, 2, … in order -/
 def sopAcceptsNumbers (numbers : List Int) : Bool :=
